@@ -157,10 +157,26 @@ theorem write_inv (c : WCfg) (scale : Int → Int) (s : SW) (r : WRec) (h : Inv 
     rw [hid] at this
     exact this
 
+theorem writeFailed_eq (c : WCfg) (scale : Int → Int) (s : SW) (r : WRec) :
+    writeFailed c scale s r =
+      match fitClose c scale s r.decl with
+      | none => (s, ⟨none, 0, 0, true⟩)
+      | some cl => (ready c s cl r.infoBytes, ⟨none, 0, 0, true⟩) := by
+  unfold writeFailed ready
+  cases fitClose c scale s r.decl <;> rfl
+
+/-- a record that fails to marshal leaves the invariant alone: nothing of it stays in the file -/
+theorem writeFailed_inv (c : WCfg) (scale : Int → Int) (s : SW) (r : WRec) (h : Inv s) : Inv (writeFailed c scale s r).1 := by
+  rw [writeFailed_eq]
+  cases fitClose c scale s r.decl with
+  | none => exact h
+  | some cl => exact (ready_inv c s cl r.infoBytes h).1
+
 theorem step_inv (c : WCfg) (scale : Int → Int) (s : SW) (op : WOp) (h : Inv s) : Inv (step c scale s op).1 := by
   cases op with
   | write r => exact write_inv c scale s r h
   | rotate => exact close_inv s h
+  | failed r => exact writeFailed_inv c scale s r h
 
 /-- **the invariant holds in every reachable state**: in particular the tracked size is the length of the open file -/
 theorem C04_inv (c : WCfg) (scale : Int → Int) (ops : List WOp) : Inv (run c scale SW.init ops).1 := by
@@ -226,6 +242,12 @@ theorem step_grows (c : WCfg) (scale : Int → Int) (s : SW) (op : WOp) (f : WFi
     · exact ⟨f1, hf1, hid1, post1, hp1⟩
   cases op with
   | rotate => exact hclose s f hf
+  | failed r =>
+    show ∃ f' ∈ (writeFailed c scale s r).1.files, _
+    rw [writeFailed_eq]
+    cases fitClose c scale s r.decl with
+    | none => exact ⟨f, hf, rfl, [], by simp⟩
+    | some cl => exact hready cl r.infoBytes
   | write r =>
     show ∃ f' ∈ (write c scale s r).1.files, _
     rw [write_eq]
